@@ -59,6 +59,7 @@ type regLayer struct {
 }
 
 type regModel struct {
+	envSha   string // manifest the name was linked to when the environment last removed a layer file
 	idx      int
 	repo     string // library/m0
 	tag      string
@@ -126,14 +127,15 @@ type pullResult struct {
 }
 
 type regWorld struct {
-	t     *testing.T
-	sim   *verifsim.Sim
-	dir   string
-	ctl   *vfs.Control
-	reg   *simReg
-	cache *blob.DiskCache
-	cl    *ollama.Registry
-	local *Local
+	envRemoved map[string]bool // layer files removed from the cache by the environment (envRemoveLayer)
+	t          *testing.T
+	sim        *verifsim.Sim
+	dir        string
+	ctl        *vfs.Control
+	reg        *simReg
+	cache      *blob.DiskCache
+	cl         *ollama.Registry
+	local      *Local
 
 	models   []*regModel
 	attempts []regAttempt
@@ -586,6 +588,17 @@ func (w *regWorld) auditName(m *regModel, outcome string, mustResolve bool, want
 		verifsim.Probe("name_resolves_to_non_manifest")
 		return
 	}
+	if outcome != "success" && len(w.envRemoved) > 0 {
+		// a layer the environment removed stays missing until a pull succeeds again
+		kept := probs[:0]
+		for _, p := range probs {
+			if p.kind == "layer-missing" && w.envRemoved[p.digest] {
+				continue
+			}
+			kept = append(kept, p)
+		}
+		probs = kept
+	}
 	if len(probs) > 0 {
 		p := probs[0]
 		sig := "pull-audit:" + outcome + ":" + p.kind
@@ -594,6 +607,53 @@ func (w *regWorld) auditName(m *regModel, outcome string, mustResolve bool, want
 		}
 		w.violate("pull-audit", sig, "%s (%s): %s resolves to manifest %s, but %s (%d layer problems)", outcome, w.phase, m.name, sha256Hex(mb)[:19], p.detail, len(probs))
 	}
+}
+
+// envRemoveLayer: between two attempts something other than the client removes one layer file
+// of a linked model from the cache (an operator tidying up, another tool). Until a pull of
+// the model succeeds again the name resolves to an incomplete model through no fault of the
+// client; what C09 says is that the *next successful pull* must notice and fetch the layer.
+func (w *regWorld) envRemoveLayer() {
+	verifsim.Atomic(func() {
+		var cands []string
+		for _, m := range w.models {
+			_, mb, found := w.findManifest(m.name)
+			if !found {
+				continue
+			}
+			var mj manifestJSON
+			if json.Unmarshal(mb, &mj) != nil {
+				continue
+			}
+			for _, l := range mj.Layers {
+				if l == nil {
+					continue
+				}
+				d := strings.ToLower(l.Digest)
+				if _, err := os.Stat(filepath.Join(w.dir, "blobs", strings.Replace(d, ":", "-", 1))); err == nil {
+					cands = append(cands, d)
+				}
+			}
+		}
+		if len(cands) == 0 {
+			return
+		}
+		sort.Strings(cands)
+		d := cands[verifsim.Draw("env-removes-which", len(cands))]
+		if os.Remove(filepath.Join(w.dir, "blobs", strings.Replace(d, ":", "-", 1))) == nil {
+			if w.envRemoved == nil {
+				w.envRemoved = map[string]bool{}
+			}
+			w.envRemoved[d] = true
+			for _, m := range w.models {
+				if _, mb, found := w.findManifest(m.name); found {
+					m.envSha = sha256Hex(mb)
+				}
+			}
+			verifsim.Fault("cache_file_removed_by_the_environment")
+			w.note("%s: layer file %s removed from the cache by something other than the client", w.phase, d[:19])
+		}
+	})
 }
 
 func (w *regWorld) onStep() {
@@ -612,6 +672,11 @@ func (w *regWorld) onStep() {
 			continue
 		}
 		m.lastSha = sha
+		if sha == m.envSha {
+			// not a new link: the bytes the name was linked to when the environment removed a
+			// layer file (seen again because a restart forgot what had been seen)
+			continue
+		}
 		// the name has just become linked to these bytes, by one of the pulls of the model in flight
 		var pts []*pullTrace
 		for _, pt := range w.inflight {
@@ -791,6 +856,9 @@ func (w *regWorld) driver(from int, restarted bool, done *bool) {
 	}
 	for k := from; k < len(w.attempts); k++ {
 		w.phase = fmt.Sprintf("attempt %d", k+1)
+		if verifsim.Draw("env-removes-layer", 6) == 0 {
+			w.envRemoveLayer()
+		}
 		w.runAttempt(k, w.attempts[k])
 	}
 	for k := 0; k < w.pushes; k++ {
